@@ -38,7 +38,7 @@ def _evaluate(text, frags, space, acc, state):
 
 
 def run(tier, seed):
-    sp = _e1parse.parse_spaces(tier, focus=('D4',) if tier == 'quick' else ('D4', 'D7'))
+    sp = _e1parse.parse_spaces(tier, focus=() if tier == 'quick' else ('D4', 'D7'), light=True)
     sp.append((f'SPL<={5 if tier == "quick" else 6} blank', spaces.SPL, 5 if tier == 'quick' else 6, ' '))
     merged, sizes = e1.run(sp, _evaluate, seed, bits=27 if tier == 'thorough' else 23, setup=_setup)
     cov = {
